@@ -362,6 +362,11 @@ type NegCase struct {
 	// each must be refused and must leave the connection as it was
 	Refused    []uint32 `json:"refused,omitempty"`
 	RefusedVer []byte   `json:"refused_version,omitempty"`
+	// Prior: version strings of earlier VALID negotiations on the same
+	// connection, each made at quiescence with an msize that does not lower the
+	// server's, each followed by one refused request; every one of them, and the
+	// final one, must come out as on a fresh connection
+	Prior []string `json:"prior,omitempty"`
 }
 
 var srvMsizes = []uint32{0, 24, 25, 32, 64, 128, 4096, 8192, 65560, defMsize}
@@ -417,7 +422,25 @@ func runNeg(c *NegCase) error {
 			return fmt.Errorf("Tversion %d of the sequence (msize %d): %w", i+1, rm, err)
 		}
 	}
+	for i, pv := range c.Prior {
+		if err := l.negotiate(0xFFFFFFFF, []byte(pv), c.SrvDotu); err != nil {
+			return fmt.Errorf("Tversion %d of the sequence (%q, msize 2^32-1): %w", i+1, pv, err)
+		}
+		if hx.IsKnown(findErrNoFit) && l.M < 64 {
+			continue
+		}
+		r, err := l.rpc(&ref9p.Msg{Type: ref9p.Tclunk, Fid: 7777})
+		if err != nil {
+			return fmt.Errorf("after Tversion %d of the sequence (%q, 9P2000.u=%v), Tclunk of an unknown fid: %w", i+1, pv, l.dotu, err)
+		}
+		if r.Type != ref9p.Rerror {
+			return fmt.Errorf("harness: Tclunk of an unknown fid answered %s", ref9p.TypeName(r.Type))
+		}
+	}
 	err := l.negotiate(c.CliMsize, c.Version, c.SrvDotu)
+	if len(c.Prior) > 0 && err != nil && err != errRefused && err != errTooBigTversion {
+		return fmt.Errorf("after %d earlier negotiation(s) %q on the same connection: %w", len(c.Prior), c.Prior, err)
+	}
 	if len(c.Refused) > 0 && err != nil && err != errRefused && err != errTooBigTversion {
 		return fmt.Errorf("after %d refused Tversion(s) with msize %v on the same connection: %w", len(c.Refused), c.Refused, err)
 	}
@@ -486,8 +509,11 @@ func TestEnumNegotiation(t *testing.T) {
 // connection, one or two Tversions refused for msize < 24 (sent with the other
 // dialect's version string) are followed by a valid one, which must be answered
 // exactly as on a fresh connection; then Tattach and a refused Tclunk run in
-// the negotiated msize and dialect. (A second valid Tversion after a
-// successful one would be a mid-session renegotiation and is not generated.)
+// the negotiated msize and dialect. And renegotiation at quiescence: one to
+// three earlier valid Tversions (msize 2^32-1, so that the server's msize stays
+// in force) each followed by one refused request, then the judged Tversion. (A
+// Tversion with requests outstanding, or after the msize was lowered, is not
+// generated: the statement does not say what it yields.)
 func TestEnumNegotiationSequences(t *testing.T) {
 	idx, n := 0, 0
 	prefixes := [][]uint32{{0}, {1}, {7}, {18}, {19}, {23}, {23, 0}, {1, 23}}
@@ -521,8 +547,36 @@ func TestEnumNegotiationSequences(t *testing.T) {
 			}
 		}
 	}
+	// a connection negotiated before (at quiescence, without lowering the
+	// msize) negotiates again: the dialect must not be carried over
+	for _, sm := range []uint32{0, 64, 128, 8192} {
+		S := eff(sm)
+		for _, d := range []bool{false, true} {
+			for _, prior := range [][]string{{"9P2000"}, {"9P2000.u"}, {"9P2000", "9P2000.u"}, {"9P2000.u", "9P2000"}, {"9P2000", "9P2000"}, {"9P2000.u", "9P2000.u", "9P2000"}} {
+				for _, c := range uniq([]uint32{64, S, 0xFFFFFFFF}) {
+					for _, v := range []string{"9P2000", "9P2000.u", "9P1999"} {
+						idx++
+						if hx.NShards > 1 && idx%hx.NShards != hx.Shard {
+							continue
+						}
+						nc := &NegCase{SrvMsize: sm, CliMsize: c, SrvDotu: d, Version: []byte(v), Prior: prior}
+						hx.Journal("neg", nc)
+						hx.Eval()
+						hx.Sample("neg", nc)
+						hx.Label("neg sequence valid-then-valid")
+						hx.NonTrivial("negseq2", sm, c, d, v, fmt.Sprint(prior))
+						n++
+						if err := finish(runNeg(nc)); err != nil {
+							hx.Violation("neg", nc, err.Error())
+							t.Fatalf("%+v: %v", nc, err)
+						}
+					}
+				}
+			}
+		}
+	}
 	hx.ExtraAdd("negotiation_sequences", int64(n))
-	hx.Exhaustive("negotiation sequences on one connection: refused Tversion msize {0, 1, 7, 18, 19, 23, (23,0), (1,23)} then valid msize {24, 64, 128, s-1, s, s+1, 2^32-1} x server msize {unset, 24, 25, 64, 128, 8192} x server 9P2000.u on/off x version {9P2000, 9P2000.u} (the refused ones carry the other string), followed by Tattach and a refused Tclunk")
+	hx.Exhaustive("negotiation sequences on one connection: refused Tversion msize {0, 1, 7, 18, 19, 23, (23,0), (1,23)} then valid msize {24, 64, 128, s-1, s, s+1, 2^32-1} x server msize {unset, 24, 25, 64, 128, 8192} x server 9P2000.u on/off x version {9P2000, 9P2000.u} (the refused ones carry the other string), followed by Tattach and a refused Tclunk; and renegotiation at quiescence: earlier valid Tversions {(plain), (.u), (plain,.u), (.u,plain), (plain,plain), (.u,.u,plain)} with msize 2^32-1, each followed by a refused Tclunk, then version {9P2000, 9P2000.u, 9P1999} x client msize {64, s, 2^32-1} x server msize {unset, 64, 128, 8192} x server 9P2000.u on/off")
 }
 
 // ---------------------------------------------------------------------------
@@ -1205,7 +1259,7 @@ type FrameCase struct {
 	CliMsize uint32 `json:"cli_msize"`
 	Dotu     bool   `json:"dotu"`
 	Size     uint32 `json:"size"`
-	Mode     string `json:"mode"` // hdr: the 7-byte header only; full: header followed by data; split: header and data in two writes
+	Mode     string `json:"mode"` // hdr: the 7-byte header only; hdr4/hdr5/hdr6: only its first 4/5/6 bytes; full: header followed by data; split: header and data in two writes
 }
 
 // walkOfSize builds a well-formed Twalk of exactly n bytes (n == 17 or n >= 19).
@@ -1280,9 +1334,15 @@ func runFrame(c *FrameCase) error {
 		copy(data[7:], script.PRF("filler", n))
 	}
 	mark := len(sv.S.Log())
+	nsent := len(data)
 	switch c.Mode {
 	case "hdr":
+		nsent = 7
 		l.write(data[:7])
+	case "hdr4", "hdr5", "hdr6":
+		// the size prefix alone (and the first bytes behind it) announces the frame
+		nsent = 4 + int(c.Mode[3]-'4')
+		l.write(data[:nsent])
 	case "full":
 		l.write(data)
 	case "split":
@@ -1293,7 +1353,7 @@ func runFrame(c *FrameCase) error {
 	default:
 		return fmt.Errorf("harness: mode %q", c.Mode)
 	}
-	complete := c.Mode != "hdr" || c.Size == 7
+	complete := (c.Mode != "hdr" || c.Size == 7) && !strings.HasPrefix(c.Mode, "hdr4") && !strings.HasPrefix(c.Mode, "hdr5") && !strings.HasPrefix(c.Mode, "hdr6")
 	hx.Label(fmt.Sprintf("frame %s legal=%v wellformed=%v", c.Mode, legal, wellFormed))
 
 	if legal && wellFormed && complete {
@@ -1332,7 +1392,7 @@ func runFrame(c *FrameCase) error {
 			time.Sleep(2 * time.Millisecond)
 			if l.w.waiting(l.sent) && !l.end.PeerClosed() {
 				n, what := countEnter(sv.S, mark)
-				return violf("a frame announcing %d bytes (msize %d, %d bytes sent) did not make the server drop the connection: it went back to reading; implementation calls since: %d %s", c.Size, M, len(data), n, what)
+				return violf("a frame announcing %d bytes (msize %d, %d bytes sent) did not make the server drop the connection: it went back to reading; implementation calls since: %d %s", c.Size, M, nsent, n, what)
 			}
 		}
 		if i > 20000 {
@@ -1372,7 +1432,7 @@ func TestEnumFrameSizes(t *testing.T) {
 		sizes := uniq([]uint32{0, 1, 2, 3, 4, 5, 6, 7, 8, 17, 19, 20, M - 1, M, M + 1, M + 2, 2 * M, 1 << 16, 1 << 31, 0xFFFFFFFF})
 		for _, dotu := range []bool{false, true} {
 			for _, sz := range sizes {
-				for _, mode := range []string{"hdr", "full", "split"} {
+				for _, mode := range []string{"hdr", "full", "split", "hdr4", "hdr5", "hdr6"} {
 					idx++
 					if hx.NShards > 1 && idx%hx.NShards != hx.Shard {
 						continue
@@ -1394,14 +1454,14 @@ func TestEnumFrameSizes(t *testing.T) {
 		}
 	}
 	hx.ExtraAdd("frame_probes", int64(n))
-	hx.Exhaustive("announced frame sizes {0..8, 17, 19, 20, msize-1, msize, msize+1, msize+2, 2*msize, 2^16, 2^31, 2^32-1} x {7-byte header only, header followed by data in one write, in two writes} x dialect x negotiated msize {24, 25, 32, 64, 128, 4096, 8192, 65560, 1 MiB+24 set by the server; 24, 128, 8192 lowered by the client}")
+	hx.Exhaustive("announced frame sizes {0..8, 17, 19, 20, msize-1, msize, msize+1, msize+2, 2*msize, 2^16, 2^31, 2^32-1} x {7-byte header only, header followed by data in one write, in two writes, only the first 4 / 5 / 6 bytes} x dialect x negotiated msize {24, 25, 32, 64, 128, 4096, 8192, 65560, 1 MiB+24 set by the server; 24, 128, 8192 lowered by the client}")
 }
 
 // TestPropFrames draws announced sizes from the whole 32-bit range.
 func TestPropFrames(t *testing.T) {
 	hx.Check(t, "frame", hx.N(150, 3000), func(t *rapid.T) {
 		M := rapid.SampledFrom([]uint32{24, 25, 31, 32, 64, 100, 128, 1000, 4096, 8192, 65560}).Draw(t, "msize")
-		fc := &FrameCase{SrvMsize: M, CliMsize: 0xFFFFFFFF, Dotu: rapid.Bool().Draw(t, "dotu"), Mode: rapid.SampledFrom([]string{"hdr", "full", "split"}).Draw(t, "mode")}
+		fc := &FrameCase{SrvMsize: M, CliMsize: 0xFFFFFFFF, Dotu: rapid.Bool().Draw(t, "dotu"), Mode: rapid.SampledFrom([]string{"hdr", "full", "split", "hdr4", "hdr5", "hdr6"}).Draw(t, "mode")}
 		if rapid.Bool().Draw(t, "clientlowers") {
 			fc.SrvMsize, fc.CliMsize = 0, M
 		}
